@@ -155,7 +155,8 @@ def c07(case, diff, o, v):
             return "KF-30c"
         if _re.search(r"union\s+all", txt, _re.I) and not _re.search(r"union all", txt, _re.I) is None or _re.search(r"union(\s{2,}|[\t\n]+\s*)all", txt, _re.I):
             return "KF-30a"
-        if kinds & {"upper", "swap", "mixed"} and any(m != "cast" for m in _re.findall(r"(?i)\b(cast)\s*\(", txt)):
+        if kinds & {"upper", "swap", "mixed", "lower"} and (any(m != "cast" for m in _re.findall(r"(?i)\b(cast)\s*\(", txt + " " + case.get("sql", "")))
+                                                           or (_re.search(r"(?i)\bcast\s*\(", txt) and any(m != m.lower() for m in _re.findall(r"(?i)\bas\s+([a-z_]+)\s*\(", txt + " " + case.get("sql", ""))))):
             return "KF-30b"
         if "quote" in kinds:
             return "KF-30d"
